@@ -50,6 +50,31 @@ type effect struct {
 	conds []string
 	have  bool
 	Inner ssa.Instruction // for an effect lifted out of a helper: the instruction inside the helper
+	Locks map[string]int  // for a lifted effect: locks the helper itself holds at that point (1 read, 2 write)
+}
+
+// effBefore: a happens before b on every path reaching b. Effects lifted out of one helper call are ordered inside the helper.
+func effBefore(a, b *effect) bool {
+	if a.Ins != b.Ins {
+		return dominatesI(a.Ins, b.Ins)
+	}
+	if a.Inner != nil && b.Inner != nil && a.Inner.Parent() == b.Inner.Parent() && a.Inner != b.Inner {
+		return dominatesI(a.Inner, b.Inner)
+	}
+	return false
+}
+
+// heldAt returns how the lock named key is held where e happens: by the analysed function at e.Ins, or by the
+// looked-through helper around the effect itself.
+func heldAt(ls map[*ssa.BasicBlock][]lockState, e *effect, key string) int {
+	h := 0
+	if rec := ls[e.Ins.Block()]; rec != nil && instrIndex(e.Ins) < len(rec) {
+		h = rec[instrIndex(e.Ins)][key]
+	}
+	if v := e.Locks[key]; v > h {
+		h = v
+	}
+	return h
 }
 
 func (e *effect) Conds() []string {
@@ -77,13 +102,25 @@ func effectsOf(fn *ssa.Function) []*effect {
 		}
 		outer := condStrings(ctrlConds(ins.Block()))
 		withCallEnv(ci, callee, func() {
+			ls := locksets(callee, lockState{}) // lock names are rendered in the caller's terms
 			for _, e := range effectsOf(callee) {
 				if strings.HasPrefix(e.Str, "return ") {
 					continue
 				}
 				conds := append(append([]string{}, outer...), e.Conds()...)
 				sort.Strings(conds)
-				out = append(out, &effect{Ins: ins, Str: e.Str, conds: conds, have: true, Inner: e.Ins})
+				locks := map[string]int{}
+				if rec := ls[e.Ins.Block()]; rec != nil && instrIndex(e.Ins) < len(rec) {
+					for k, v := range rec[instrIndex(e.Ins)] {
+						locks[k] = v
+					}
+				}
+				for k, v := range e.Locks {
+					if v > locks[k] {
+						locks[k] = v
+					}
+				}
+				out = append(out, &effect{Ins: ins, Str: e.Str, conds: conds, have: true, Inner: e.Ins, Locks: locks})
 			}
 		})
 	})
